@@ -222,6 +222,11 @@ def run_literal_parity(prog, tier, repo):
     return [res]
 
 
+def def_sites_of(b, local):
+    from ..cfg import def_sites
+    return [d for d in def_sites(b).get(local, []) if not b.blocks[d[0]].cleanup]
+
+
 def run_id_comment_pair(prog, tier, repo):
     """ID-COMMENT-PAIR (C09): where the printer prints the name of an identifier without its comments, the parser
     must provably never attach comments to that identifier slot."""
@@ -274,6 +279,38 @@ def run_id_comment_pair(prog, tier, repo):
             n_pairs += 1
             if parent not in comment_reads:
                 unprinted.setdefault(parent, (b, line))
+        # identifiers reached without a parent slot (closure / iterator items): the same local must also give its comments
+        loc_name, loc_comm = {}, set()
+        for pl, bi, line in places_read(b):
+            fs = [e for e in pl.proj if e[0] == 'f']
+            if len(fs) == 1 and fs[0][1] == ID.id:
+                r, p = root_local(b, pl.local)
+                if not [e for e in p if e[0] == 'f'] and len(def_sites_of(b, r)) <= 1:
+                    if fs[0][4] == 'name':
+                        loc_name.setdefault(r, line)
+                    elif fs[0][4] == 'associated_comments':
+                        loc_comm.add(r)
+        # only names that are turned into output count: the value must reach a Document-producing printer function
+        def printed(r):
+            for bl in b.blocks:
+                t = bl.term
+                if t[0] == 'call' and (callee(t)[1] or '').startswith('samlang_printer::'):
+                    for o in t[3]:
+                        if o[0] in ('c', 'm'):
+                            rr, pp = operand_root(b, o)
+                            if rr == r and [e for e in pp if e[0] == 'f' and e[1] == ID.id and e[4] == 'name']:
+                                return True
+            return False
+        loc_name = {r: l for r, l in loc_name.items() if printed(r)}
+        for r, line in loc_name.items():
+            n_pairs += 1
+            key = f'id-comments-item:{b.name}'
+            # whole-Id copies (`*id`, passing the Id on) hand the comments along with the name
+            if r in loc_comm:
+                res.ok(key, b.loc(line), 'name and comments of the identifier are both read')
+            else:
+                res.violation(key, b.loc(line), f'{b.name} prints the name of an identifier taken from a list (or closure argument) '
+                              f'without ever reading its comments: comments attached to such identifiers are lost by formatting')
     res.floor('identifier print sites', n_pairs, 5)
     parser = [b for b in prog.bodies.values() if b.crate == 'samlang_parser']
     for parent, (pb, pline) in sorted(unprinted.items()):
